@@ -153,6 +153,28 @@ def projStep (acc m : Int) (b : Nat) : Int := sat16 (acc + (m * float2Int16 b + 
 def projOut16 (cells : List Int) (samples : List Nat) : Int :=
   (List.zip cells samples).foldl (fun acc p => projStep acc p.1 p.2) 0
 
+/-! ### projection float output: `mapping_matrix_multiply_channel_out_float` (src/mapping_matrix.c:117-143) -/
+
+/-- binary32 product of two finite values (one rounding); a non-finite operand gives the quiet NaN pattern
+    (the tie feeds finite samples only). -/
+def fmul (a b : Nat) : Nat :=
+  match val a, val b with
+  | some x, some y => ofScaled (x * y) 149
+  | _, _ => 0x7fc00000
+
+/-- binary32 sum of two finite values (one rounding; an exact zero sum is +0, as in round-to-nearest when
+    the accumulator is never -0). -/
+def fadd (a b : Nat) : Nat :=
+  match val a, val b with
+  | some x, some y => ofScaled (x + y) 0
+  | _, _ => 0x7fc00000
+
+/-- One output sample of the float path: the output cleared (src/opus_projection_decoder.c:62-63), then for
+    every decoded stream channel `tmp = (1/32768.f)*cell * input_sample; output += tmp`
+    (`(1/32768.f)*cell` is exact: `INT16TORES(cell)`). -/
+def projOutF (cells : List Int) (samples : List Nat) : Nat :=
+  (List.zip cells samples).foldl (fun acc p => fadd acc (fmul (int16ToRes p.1) p.2)) 0
+
 /-! ### the entry points, reduced to what they hand to the shared core
 
   `opus_encode` / `opus_encode24` / `opus_encode_float` (opus_encoder.c, end of file) compute
